@@ -569,7 +569,11 @@ class _ExprNorm(ast.NodeTransformer):
                 and isinstance(node.args[0].elt, ast.Tuple) and len(node.args[0].elt.elts) == 2:
             g = node.args[0]
             return ast.copy_location(ast.DictComp(key=g.elt.elts[0], value=g.elt.elts[1], generators=g.generators), node)
-        # re.match(P, s) -> P.match(s) for compiled module-level patterns is left to the rules
+        # list(X) -> [*X], tuple(X) -> (*X,)
+        if f in ("list", "tuple") and len(node.args) == 1 and not node.keywords and not isinstance(node.args[0], ast.Starred):
+            st = ast.Starred(value=node.args[0], ctx=ast.Load())
+            new = ast.List(elts=[st], ctx=ast.Load()) if f == "list" else ast.Tuple(elts=[st], ctx=ast.Load())
+            return ast.copy_location(new, node)
         return node
 
     def visit_BinOp(self, node):
@@ -605,6 +609,9 @@ class _ExprNorm(ast.NodeTransformer):
 
     def visit_Starred(self, node):
         self.generic_visit(node)
+        # *[comprehension] and *(generator) unpack the same elements in the same order
+        if isinstance(node.value, ast.ListComp):
+            node.value = ast.copy_location(ast.GeneratorExp(elt=node.value.elt, generators=node.value.generators), node.value)
         return node
 
 
@@ -955,6 +962,8 @@ class Canon:
         b = nest_tails(b)
         b = strip_tail_continue(b)
         b = norm.normalise_loops(b)
+        from .nf import _generator_to_genexp
+        b = _generator_to_genexp(b)
         b = expr_norm(b)
         if subst:
             b = subst_single_use(b)
